@@ -134,14 +134,22 @@ def _refused_already(w: CliWorld, name: str) -> bool:
 
 class CliHarness:
     def __init__(self, seed: tuple[str, ...], probe: bool = True, c07: bool = False, reconnect: bool = False) -> None:
-        self.seed = list(seed)
+        # "@early-client": the APIClient object was created before the running loop existed (module-level client, then asyncio.run)
+        self.early_client = bool(seed) and seed[0] == "@early-client"
+        self.seed = list(seed[1:] if self.early_client else seed)
         self.can_fp = True
         self.probe = probe
         self.c07 = c07  # report the client-level stop-callback clauses (C07) instead of the C19 clauses
         self.reconnect = reconnect  # the user's stop callback immediately starts a new connection
 
     def fresh(self) -> CliWorld:
-        w = CliWorld()
+        from .. import world as _world
+
+        _world.FOREIGN_LOOP_CLIENT[0] = self.early_client
+        try:
+            w = CliWorld()
+        finally:
+            _world.FOREIGN_LOOP_CLIENT[0] = False
         if self.reconnect:
             w.reconnect_in_callback = lambda ww: self._attempt(ww, "start")
         for lab in self.seed:
